@@ -239,3 +239,48 @@ def float_audit(cfg, vals, growth, X, tol_rel=1e-6):
             if m and fs(m) > fs(m - 1) + tol:
                 bad.append("feed use never rises from one month to the next [month %d]" % m)
     return bad
+
+
+def spec_violations(cfg, vals, growth, X, tol_rel=1e-6):
+    """which constraints of the independent specification LP does a concrete allocation X (as returned by run_real) violate on concrete supplies?
+    exact evaluation of the spec formulas after substituting supplies and allocation; tolerance relative to the size of the instance"""
+    import z3
+    from . import model as LM
+    from . import spec as SP
+    M = LM.build(dict(cfg, growth=list(growth)))
+    A, spec, zobj, sub0 = SP.spec_lp(M, over="code")
+    sub = []
+    size = 1.0
+    for k, v in M.S.items():
+        if k == "pins":
+            for kk, vv in v.items():
+                for i, x in enumerate(vv):
+                    sub.append((x, q(vals["pins"][kk][i])))
+        elif isinstance(v, list):
+            for i, x in enumerate(v):
+                if z3.is_expr(x):
+                    sub.append((x, q(vals[k][i])))
+                    size += abs(vals[k][i])
+        else:
+            sub.append((v, q(vals[k])))
+            size += abs(vals[k])
+    for key, terms in M.V.items():
+        if isinstance(terms, list):
+            for m, t in enumerate(terms):
+                z = zz(t)
+                if z3.is_const(z) and z.decl().kind() == z3.Z3_OP_UNINTERPRETED:
+                    sub.append((z, q(float(X[key][m] or 0.0))))
+                    size += abs(float(X[key][m] or 0.0))
+        else:
+            z = zz(terms)
+            if z3.is_const(z) and z.decl().kind() == z3.Z3_OP_UNINTERPRETED:
+                sub.append((z, q(float(X[key] or 0.0))))
+    tol = q(tol_rel * size)
+    bad = []
+    for name, f in spec:
+        g = z3.simplify(z3.substitute(relax(f, tol * 10 ** 9), *sub))
+        if z3.is_false(g):
+            bad.append(name)
+        elif not z3.is_true(g):
+            bad.append("UNDECIDED " + name)
+    return bad
